@@ -323,6 +323,10 @@ def gen_reply_table(rng, prog, n_names=None, force_modes=None):
         m = {"kind": "reply", "name": mname, "safe": True, "hid": f"c.reply.{mname}", "part": "c",
              "handlers": list(served) if explicit else None, "serves": list(served),
              "reply_on": outcome, "payload": sig, "data": None, "ret_err": "own", "args": []}  # dispatch_reply returns the method result unconverted
+        if explicit and len(served) >= 2 and rng.random() < 0.4:
+            m["handlers_split"] = rng.randrange(1, len(served))
+        if rng.random() < 0.3:
+            m["reply_on_first"] = True
         if outcome == "success":
             m["data"] = modes.pop(0) if modes else rng.choice(DATA_MODES)
             if m["data"] in ("typed", "opt"):
@@ -353,9 +357,31 @@ def gen_reply_table(rng, prog, n_names=None, force_modes=None):
                 served, want = want[:k], want[k:]
                 new_method(outcome, served, sig)
     rng.shuffle(table["methods"])
+    _stage_merged_then_new(rng, table["methods"])
     cpart["handlers"] += table["methods"]
     prog["reply_table"] = table
     return table
+
+
+def _stage_merged_then_new(rng, ms):
+    """When possible, declares first a method that introduces name X, then a method whose `handlers=[X, Y, ..]` list names the
+    already known X *before* the new name Y, and only later the methods of further names (id numbering must not skip or reuse)."""
+    for m2 in ms:
+        if not m2.get("handlers") or len(m2["handlers"]) < 2:
+            continue
+        for m1 in ms:
+            if m1 is m2:
+                continue
+            common = [x for x in m2["handlers"] if x in m1["serves"]]
+            fresh = [y for y in m2["handlers"] if y not in m1["serves"]]
+            later = [m for m in ms if m is not m1 and m is not m2 and any(z not in m1["serves"] and z not in m2["serves"] for z in m["serves"])]
+            if common and fresh and later and rng.random() < 0.6:
+                m2["handlers"] = common + fresh
+                m2["serves"] = list(m2["handlers"])
+                m2.pop("handlers_split", None)
+                rest = [m for m in ms if m is not m1 and m is not m2]
+                ms[:] = [m1, m2] + rest
+                return
 
 
 def reply_method_for(table, name, ok):
